@@ -51,6 +51,9 @@ type c12Case struct {
 	// EnvActions makes the rules' actions write a fact of their own
 	// (Env.AddFact) besides returning their tag.
 	EnvActions bool `json:"envActions,omitempty"`
+	// Mut: every rule has two actions, which run in parallel and both
+	// write into the object that the rule's `when` binds from the event.
+	Mut bool `json:"mut,omitempty"`
 	// Noise > 0 switches the location's timers on and hangs a PointHook on
 	// every client context: rulio calls it whenever a timed section ends -
 	// at the end of every state and location operation, after its locks
@@ -120,6 +123,7 @@ func genC12(t *rapid.T) c12Case {
 	c.StoreDelayUs = rapid.SampledFrom([]int{0, 0, 20, 100}).Draw(t, "storeDelayUs")
 	c.Hooks = rapid.IntRange(0, 2).Draw(t, "hooks") == 0
 	c.EnvActions = rapid.IntRange(0, 2).Draw(t, "envActions") == 0
+	c.Mut = rapid.IntRange(0, 3).Draw(t, "mut") == 0
 	if rapid.Bool().Draw(t, "noise?") {
 		c.Noise = rapid.IntRange(1, 1000).Draw(t, "noise")
 	}
@@ -188,6 +192,8 @@ type c12In struct {
 	Hooks bool
 	// Env: the rule's action also writes a fact (addRule only).
 	Env bool
+	// Mut: rules have two actions that write into a bound object.
+	Mut bool
 }
 
 type c12Out struct {
@@ -366,7 +372,12 @@ func c12ExecNoisy(loc *core.Location, in c12In, noise *schedNoise) c12Out {
 		return c12Out{Res: strings.Join(rows, ",")}
 	case "addRule":
 		rule := mkRule(M{"go": "1"}, in.V)
-		if in.Env {
+		if in.Mut {
+			// two actions (they run in parallel), each writing into
+			// the object bound from the event
+			code := "for (var i = 0; i < 40; i++) { o['k' + i] = i; } o.n = 2; '" + in.V + "'"
+			rule = M{"when": M{"pattern": M{"go": "1", "obj": "?o"}}, "actions": A{M{"code": code}, M{"code": code}}}
+		} else if in.Env {
 			rule["action"] = M{"code": "Env.AddFact('made_' + ruleId, {made: '" + in.V + "'}); '" + in.V + "'"}
 		}
 		_, err := loc.AddRule(ctx, in.Id, core.Map(rule))
@@ -392,12 +403,16 @@ func c12ExecNoisy(loc *core.Location, in c12In, noise *schedNoise) c12Out {
 		code := ""
 		if a, ok := r["action"].(map[string]interface{}); ok {
 			code, _ = a["code"].(string)
+		} else if as, ok := r["actions"].([]interface{}); ok && len(as) > 0 {
+			if a, ok := as[0].(map[string]interface{}); ok {
+				code, _ = a["code"].(string)
+			}
 		}
 		// the tag is the last quoted string of the action
 		code = strings.TrimSuffix(code, "'")
 		return c12Out{Res: code[strings.LastIndex(code, "'")+1:]}
 	case "event":
-		work, cond := loc.ProcessEvent(ctx, core.Map{"go": "1"})
+		work, cond := loc.ProcessEvent(ctx, core.Map{"go": "1", "obj": map[string]interface{}{"n": 1.0}})
 		if cond != nil {
 			return c12Out{Err: cond.Msg}
 		}
@@ -406,8 +421,14 @@ func c12ExecNoisy(loc *core.Location, in c12In, noise *schedNoise) c12Out {
 			return c12Out{Err: "cannot marshal the work: " + err.Error()}
 		}
 		var vals []string
+		seen := map[string]bool{}
 		for _, v := range work.Values {
-			vals = append(vals, fmt.Sprint(v))
+			sv := fmt.Sprint(v)
+			if in.Mut && seen[sv] {
+				continue // (two actions per rule, one tag)
+			}
+			seen[sv] = true
+			vals = append(vals, sv)
 		}
 		sort.Strings(vals)
 		return c12Out{Res: strings.Join(vals, ",")}
@@ -470,7 +491,7 @@ func runC12Once(c c12Case, o *vlib.Outcome) *vlib.Outcome {
 			}
 			_ = x
 			for j, op := range ops {
-				in := c12In{K: op.K, Id: op.Id, V: fmt.Sprintf("c%d.%d", ci, j), Hooks: c.Hooks, Env: c.EnvActions && op.K == "addRule"}
+				in := c12In{K: op.K, Id: op.Id, V: fmt.Sprintf("c%d.%d", ci, j), Hooks: c.Hooks, Env: c.EnvActions && op.K == "addRule", Mut: c.Mut}
 				call := time.Since(t0).Nanoseconds()
 				out := c12ExecNoisy(loc, in, noise)
 				ret := time.Since(t0).Nanoseconds()
@@ -518,7 +539,7 @@ func runC12Once(c c12Case, o *vlib.Outcome) *vlib.Outcome {
 		out := c12Exec(loc, in)
 		history = append(history, porcupine.Operation{ClientId: len(c.Clients), Input: in, Call: end + int64(2*i), Output: out, Return: end + int64(2*i) + 1})
 	}
-	in := c12In{K: "event"}
+	in := c12In{K: "event", Mut: c.Mut}
 	history = append(history, porcupine.Operation{ClientId: len(c.Clients), Input: in, Call: end + 10, Output: c12Exec(loc, in), Return: end + 11})
 
 	res, info := porcupine.CheckOperationsVerbose(c12Model, history, 20*time.Second)
